@@ -8,7 +8,7 @@ from .engine import Unsupported, PyRaise, Frame, class_table, is_subclass, _not,
 pow_ = z3.Function("pow", RealS, RealS, RealS)
 log_ = z3.Function("ln", RealS, RealS)
 
-BUILTINS = {"super", "abs", "len", "sum", "min", "max", "isinstance", "float", "int", "list", "dict", "set", "zip", "range",
+BUILTINS = {"bisect_right", "bisect_left", "super", "abs", "len", "sum", "min", "max", "isinstance", "float", "int", "list", "dict", "set", "zip", "range",
             "sorted", "defaultdict", "deque", "type", "all", "any", "tuple", "enumerate", "bool", "getattr",
             "OrderedDict", "str", "repr", "print", "iter", "next", "round"}
 MODULES = {"np", "numpy", "bisect", "itertools", "datetime", "random", "calendar", "pd", "inspect", "timedelta",
@@ -459,6 +459,8 @@ def call_builtin(I, name, args, kwargs):
             t = _dt.datetime(*[v.as_long() for v in vals])
             return Tm((t - _dt.datetime(2000, 1, 1)).total_seconds())
         raise Unsupported("datetime(...) with symbolic fields")
+    if name in ("bisect_left", "bisect_right"):
+        name = "bisect." + name
     if name in ("bisect.bisect_left", "bisect.bisect_right"):
         seq, x = args
         p = I.heap[seq.oid]
